@@ -11,9 +11,6 @@ Variable dumps : Z -> dyn -> list Z.
 Variable loads : list Z -> exc dyn.
 Variable compress : list Z -> list Z.
 Variable decompress : list Z -> exc (list Z).
-Hypothesis pickle_roundtrip : forall pv v, loads (dumps pv v) = Ok v.
-Hypothesis codec_roundtrip : forall b, decompress (compress b) = Ok b.
-
 Notation ser := (serialize dumps).
 Notation deser := (deserialize loads).
 
@@ -25,7 +22,7 @@ Lemma serialize_shape pv v : encodable v ->
               (f = 2 -> exists z, v = DInt z /\ b = str_of_Z z) /\
               (f = 1 -> b = dumps pv v).
 Proof.
-  clear codec_roundtrip pickle_roundtrip. clear compress decompress. intros He. destruct v; cbn [serialize encodable pickled] in *;
+  clear compress decompress. intros He. destruct v; cbn [serialize encodable pickled] in *;
     try (eexists; eexists; split; [reflexivity|]; repeat split; intros; try discriminate; try lia; eauto; fail).
   - destruct (utf8_encode s) as [e|] eqn:E; [|congruence].
     exists e, 16. split; [reflexivity|]. repeat split; intros; try discriminate; try lia; eauto.
@@ -37,25 +34,29 @@ Lemma deser_cases b f v pv : (f = 0 \/ f = 16 \/ f = 2 \/ f = 1) ->
   (f = 16 -> exists s, v = DStr s /\ utf8_encode s = Some b) ->
   (f = 2 -> exists z, v = DInt z /\ b = str_of_Z z) ->
   (f = 1 -> b = dumps pv v) ->
+  (f = 1 -> loads (dumps pv v) = Ok v) ->
   deser (DBytes b) f = Ok v /\ deser (DBytes b) (Z.lor f 8) = Ok v.
 Proof.
-  clear codec_roundtrip. clear compress decompress. intros Hf H0 H16 H2 H1. unfold deserialize, has.
+  clear compress decompress. intros Hf H0 H16 H2 H1 Hp. unfold deserialize, has.
   destruct Hf as [->|[->|[->| ->]]]; cbn [Z.lor Z.eqb Z.land Pos.lor Pos.land negb Pos.eqb].
   - rewrite (H0 eq_refl). split; reflexivity.
   - destruct (H16 eq_refl) as (s & -> & E). cbn [py_decode_utf8]. rewrite (utf8_roundtrip s b E). split; reflexivity.
   - destruct (H2 eq_refl) as (z & -> & ->). cbn [py_int]. rewrite int_of_str_of_Z. split; reflexivity.
-  - rewrite (H1 eq_refl), pickle_roundtrip. split; reflexivity.
+  - rewrite (H1 eq_refl), (Hp eq_refl). split; reflexivity.
 Qed.
 
-Theorem pickle_serde_roundtrip pv v : encodable v ->
+(* per value: only the pickle round trip of THIS value (when it is pickled at all) and, for the compressed form, the codec's
+   round trip are needed *)
+Theorem pickle_serde_roundtrip_at pv v : encodable v -> (pickled v = true -> loads (dumps pv v) = Ok v) ->
   exists b f, ser pv v = Ok (DBytes b, f) /\ 0 <= f < 65536 /\ deser (DBytes b) f = Ok v.
 Proof.
-  clear codec_roundtrip. clear compress decompress. intros He. destruct (serialize_shape pv v He) as (b & f & E & Hf & _ & H0 & H16 & H2 & H1).
+  clear compress decompress. intros He Hp. destruct (serialize_shape pv v He) as (b & f & E & Hf & Hpk & H0 & H16 & H2 & H1).
   exists b, f. split; [exact E|]. split; [lia|].
-  apply (deser_cases b f v pv Hf H0 H16 H2 H1).
+  apply (deser_cases b f v pv Hf H0 H16 H2 H1). intros F1. apply Hp, Hpk, F1.
 Qed.
 
-Theorem compressed_serde_roundtrip min_len pv v : encodable v ->
+Theorem compressed_serde_roundtrip_at min_len pv v : encodable v -> (pickled v = true -> loads (dumps pv v) = Ok v) ->
+  (forall b, decompress (compress b) = Ok b) ->
   exists b0 f0 b f,
     ser pv v = Ok (DBytes b0, f0) /\
     c_serialize dumps compress min_len pv v = Ok (DBytes b, f) /\
@@ -65,8 +66,8 @@ Theorem compressed_serde_roundtrip min_len pv v : encodable v ->
      \/ (f = f0 /\ b = b0 /\ has f FLAG_COMPRESSED = false)) /\
     zlen b <= zlen b0.
 Proof.
-  intros He. destruct (serialize_shape pv v He) as (b0 & f0 & E & Hf & _ & H0 & H16 & H2 & H1).
-  destruct (deser_cases b0 f0 v pv Hf H0 H16 H2 H1) as [D0 D8].
+  intros He Hp codec_roundtrip. destruct (serialize_shape pv v He) as (b0 & f0 & E & Hf & Hpk & H0 & H16 & H2 & H1).
+  destruct (deser_cases b0 f0 v pv Hf H0 H16 H2 H1 (fun F1 => Hp (proj1 Hpk F1))) as [D0 D8].
   unfold c_serialize. rewrite E. cbn [bind].
   destruct ((zlen b0 >? min_len) && (min_len >? 0)) eqn:Ecmp.
   - cbv zeta. destruct (Z.ltb_spec (zlen b0) (zlen (compress b0))) as [Hlt|Hge].
@@ -85,4 +86,21 @@ Proof.
       cbn [bind]. exact D0.
     + split; [right; repeat split; destruct Hf as [->|[->|[->| ->]]]; reflexivity|lia].
 Qed.
+
+(* the universal forms, under the oracle hypotheses *)
+Hypothesis pickle_roundtrip : forall pv v, loads (dumps pv v) = Ok v.
+Hypothesis codec_roundtrip : forall b, decompress (compress b) = Ok b.
+Theorem pickle_serde_roundtrip pv v : encodable v ->
+  exists b f, ser pv v = Ok (DBytes b, f) /\ 0 <= f < 65536 /\ deser (DBytes b) f = Ok v.
+Proof. clear codec_roundtrip. clear compress decompress. intros He. apply pickle_serde_roundtrip_at; [exact He|intros _; apply pickle_roundtrip]. Qed.
+Theorem compressed_serde_roundtrip min_len pv v : encodable v ->
+  exists b0 f0 b f,
+    ser pv v = Ok (DBytes b0, f0) /\
+    c_serialize dumps compress min_len pv v = Ok (DBytes b, f) /\
+    0 <= f < 65536 /\
+    c_deserialize loads decompress (DBytes b) f = Ok v /\
+    ((f = Z.lor f0 8 /\ b = compress b0 /\ has f FLAG_COMPRESSED = true /\ zlen b0 > min_len /\ min_len > 0)
+     \/ (f = f0 /\ b = b0 /\ has f FLAG_COMPRESSED = false)) /\
+    zlen b <= zlen b0.
+Proof. intros He. apply compressed_serde_roundtrip_at; [exact He|intros _; apply pickle_roundtrip|exact codec_roundtrip]. Qed.
 End Facts.
